@@ -35,13 +35,13 @@ type view struct {
 	Key      int
 	Version  uint64
 	Revision uint64
-	Index    uint64 // log index (transaction stores), else 0
-	Spec     string // scalar part of the record that only Update is meant to change
-	Status   string // scalar part of the record that UpdateStatus changes
+	Index    uint64          // log index (transaction stores), else 0
+	Spec     string          // scalar part of the record that only Update is meant to change
+	Status   string          // scalar part of the record that UpdateStatus changes
 	Vals     map[string]pval // configuration stores: committed path values
 	Applied  map[string]pval // configuration stores: applied path values
-	ValsNil  bool // the object carries no committed value map (nothing will be written)
-	ApplNil  bool // the object carries no applied value map
+	ValsNil  bool            // the object carries no committed value map (nothing will be written)
+	ApplNil  bool            // the object carries no applied value map
 }
 
 // pval is one path value (flat, never deleted in this check).
@@ -148,11 +148,11 @@ func newAPI(kind string, client primitive.Client) (api, error) {
 
 type v2txAPI struct{ s txv2.Store }
 
-func (a *v2txAPI) Kind() string    { return KindV2Tx }
-func (a *v2txAPI) HasIndex() bool  { return true }
-func (a *v2txAPI) IsConfig() bool  { return false }
-func (a *v2txAPI) LogOf(int) int   { return 0 }
-func (a *v2txAPI) HasAlt() bool    { return true }
+func (a *v2txAPI) Kind() string   { return KindV2Tx }
+func (a *v2txAPI) HasIndex() bool { return true }
+func (a *v2txAPI) IsConfig() bool { return false }
+func (a *v2txAPI) LogOf(int) int  { return 0 }
+func (a *v2txAPI) HasAlt() bool   { return true }
 func v2pv(path string, n int, idx uint64) *v2.PathValue {
 	return &v2.PathValue{Path: path, Index: v2.Index(idx), Value: v2.TypedValue{Bytes: []byte(fmt.Sprintf("%d", n)), Type: v2.ValueType_STRING}}
 }
@@ -173,8 +173,12 @@ func (a *v2txAPI) SetStatus(o any, n int, _ *uint64) {
 	t.Status.Proposals = []v2.ProposalID{v2.ProposalID(fmt.Sprintf("p%d", n))}
 	t.Status.Failure = &v2.Failure{Description: fmt.Sprintf("f%d", n)}
 }
-func (a *v2txAPI) Create(ctx context.Context, o any) error { return a.s.Create(ctx, o.(*v2.Transaction)) }
-func (a *v2txAPI) Update(ctx context.Context, o any) error { return a.s.Update(ctx, o.(*v2.Transaction)) }
+func (a *v2txAPI) Create(ctx context.Context, o any) error {
+	return a.s.Create(ctx, o.(*v2.Transaction))
+}
+func (a *v2txAPI) Update(ctx context.Context, o any) error {
+	return a.s.Update(ctx, o.(*v2.Transaction))
+}
 func (a *v2txAPI) UpdateStatus(ctx context.Context, o any) error {
 	return a.s.UpdateStatus(ctx, o.(*v2.Transaction))
 }
@@ -283,8 +287,12 @@ func (a *v2propAPI) SetStatus(o any, n int, _ *uint64) {
 	p.Status.NextIndex = v2.Index(n + 1)
 	p.Status.RollbackValues = map[string]*v2.PathValue{"/r": v2pv("/r", n, 0)}
 }
-func (a *v2propAPI) Create(ctx context.Context, o any) error { return a.s.Create(ctx, o.(*v2.Proposal)) }
-func (a *v2propAPI) Update(ctx context.Context, o any) error { return a.s.Update(ctx, o.(*v2.Proposal)) }
+func (a *v2propAPI) Create(ctx context.Context, o any) error {
+	return a.s.Create(ctx, o.(*v2.Proposal))
+}
+func (a *v2propAPI) Update(ctx context.Context, o any) error {
+	return a.s.Update(ctx, o.(*v2.Proposal))
+}
 func (a *v2propAPI) UpdateStatus(ctx context.Context, o any) error {
 	return a.s.UpdateStatus(ctx, o.(*v2.Proposal))
 }
@@ -500,8 +508,12 @@ func (a *v3txAPI) SetStatus(o any, n int, _ *uint64) {
 	t.Status.Change.Ordinal = v3.Ordinal(n)
 	t.Status.Change.Commit = &v3.TransactionPhaseStatus{State: v3.TransactionPhaseStatus_State(n % 6)}
 }
-func (a *v3txAPI) Create(ctx context.Context, o any) error { return a.s.Create(ctx, o.(*v3.Transaction)) }
-func (a *v3txAPI) Update(ctx context.Context, o any) error { return a.s.Update(ctx, o.(*v3.Transaction)) }
+func (a *v3txAPI) Create(ctx context.Context, o any) error {
+	return a.s.Create(ctx, o.(*v3.Transaction))
+}
+func (a *v3txAPI) Update(ctx context.Context, o any) error {
+	return a.s.Update(ctx, o.(*v3.Transaction))
+}
 func (a *v3txAPI) UpdateStatus(ctx context.Context, o any) error {
 	return a.s.UpdateStatus(ctx, o.(*v3.Transaction))
 }
@@ -715,4 +727,15 @@ func trimV3(o any, kind string) bool {
 		}
 	}
 	return true
+}
+
+// stripValues removes the path value maps from a configuration object (mode B
+// exercises the record's compare-and-set only).
+func stripValues(o any) {
+	switch c := o.(type) {
+	case *v2.Configuration:
+		c.Values, c.Status.Applied.Values = nil, nil
+	case *v3.Configuration:
+		c.Committed.Values, c.Applied.Values = nil, nil
+	}
 }
